@@ -41,11 +41,11 @@ CONFIG = {
     'deciding': ['c06.meta', 'c06.hashseed'],
     'shards': {'quick': 16, 'thorough': 16},
     'hashseeds': {'quick': 4, 'thorough': 16},
-    'min_evals': {'quick': {'c06.meta': 40000, 'c06.hashseed': 250},
+    'min_evals': {'quick': {'c06.meta': 40000, 'c06.hashseed': 900},
                   'thorough': {'c06.meta': 60000, 'c06.hashseed': 4000}},
     'must_sig': ['tau:bijection', 'tau:containers', 'tau:atoms',
                  'tau:unreachable', 'tau:shuffle', 'tau:retype',
-                 'tau:distinct_objects',
+                 'tau:distinct_objects', 'tau:atoms_long',
                  'logic:CTL', 'logic:LTL', 'logic:CTLS', 'bulk:CTL'],
     'rule': ('cases = (structure, formula, logic) from a seeded list; each '
              'evaluated under every hash seed of the run (fresh interpreter '
@@ -101,15 +101,97 @@ def mc(logic, K, f):
     return L.modelcheck(K, f)
 
 
+_FAM = {}
+
+
+def similar_pairs():
+    """Two different quantified subformulas that start alike (same
+    quantifier, operator and first operand) in one formula."""
+    p, q, r_ = ('ap', 'p'), ('ap', 'q'), ('ap', 'r')
+    out = []
+    for Q, op in (('E', 'G'), ('A', 'F'), ('E', 'F'), ('A', 'G')):
+        for bop in ('and', 'or'):
+            f1 = (Q, (op, (bop, p, q)))
+            f2 = (Q, (op, (bop, p, r_)))
+            out += [('and', ('not', f1), f2), ('and', f2, ('not', f1)),
+                    ('or', f1, ('not', f2)), ('imply', f1, f2),
+                    ('E', ('F', ('and', ('not', f1), f2))),
+                    ('A', ('G', ('or', f1, ('X', f2))))]
+    for Q in 'AE':
+        u1 = (Q, ('U', p, ('and', q, r_)))
+        u2 = (Q, ('U', p, ('and', q, ('not', r_))))
+        out += [('and', ('not', u1), u2), ('or', u2, ('not', u1)),
+                ('E', ('X', ('and', u2, ('not', u1))))]
+    return out
+
+
+def families():
+    if not _FAM:
+        _FAM['CTLS'] = gen.enum_ctls_small() + similar_pairs()
+        from ..neutral import count_ops, TEMPORAL
+        _FAM['LTL'] = [('A', g) for g in gen.enum_ltl_path(2)
+                       if 2 <= count_ops(g, TEMPORAL) <= 3]
+    return _FAM
+
+
+def x_family():
+    """next-time over negative / temporal operands, under both entry points:
+    the shapes where the tableau's processing order of closure members (a
+    function of string hashes) matters most."""
+    p, q = ('ap', 'p'), ('ap', 'q')
+    gs = [('G', p), ('not', ('F', p)), ('R', p, q), ('not', ('U', p, q)),
+          ('not', p), ('G', ('not', p)), ('F', ('G', p)), ('not', ('X', p)),
+          ('X', ('not', q)), ('or', ('G', p), ('not', q)),
+          ('and', ('not', p), ('F', q)), ('U', ('not', p), ('G', q))]
+    out = []
+    for g in gs:
+        for Q in 'AE':
+            out.append(('CTLS', (Q, ('X', g))))
+            out.append(('CTLS', (Q, ('and', ('X', g), ('F', q)))))
+        out.append(('LTL', ('A', ('X', g))))
+        out.append(('LTL', ('A', ('not', ('X', g)))))
+    return out
+
+
+X_STRUCTS = [
+    ([0b01], [{'p', 'q'}]),
+    ([0b10, 0b10], [{'p'}, {'p', 'q'}]),
+    ([0b10, 0b01], [{'p'}, set()]),
+    ([0b11, 0b10], [{'q'}, {'p'}]),
+    ([0b010, 0b100, 0b100], [{'p'}, {'p', 'q'}, {'p'}]),
+    ([0b010, 0b101, 0b100], [set(), {'p'}, {'p', 'q'}]),
+]
+
+
 def make_case(r, idx):
+    if idx >= 100000:
+        # deterministic x-family block of the cross-seed list
+        k = idx - 100000
+        xf = x_family()
+        logic, t = xf[k % len(xf)]
+        succ, labs = X_STRUCTS[(k // len(xf)) % len(X_STRUCTS)]
+        ren = {'p': ATOM_NAMES['p'], 'q': ATOM_NAMES['q']}
+        if (k // (len(xf) * len(X_STRUCTS))) % 2:
+            ren = {'p': 'alpha', 'q': 'second_atom_b'}
+        t = rename_atoms(t, ren)
+        labels = [frozenset(ren[a] for a in l) for l in labs]
+        names = ['n%d' % i for i in range(len(succ))] if k % 2 else \
+            list(range(len(succ)))
+        return logic, NK(names, succ, labels), t
     logic = ('CTL', 'LTL', 'CTLS')[idx % 3]
     atoms = ('p', 'q', 'r')
     nk = gen.random_structure(r, 5, atoms=atoms, nmin=2)
+    fam = families()
     if logic == 'CTL':
         t = gen.random_ctl(r, r.randint(1, 3), atoms)
     elif logic == 'LTL':
-        t = ('A', gen.random_ltl_path(r, r.randint(1, 3), atoms,
-                                      max_temporal=3))
+        if idx % 2:
+            t = r.choice(fam['LTL'])
+        else:
+            t = ('A', gen.random_ltl_path(r, r.randint(1, 3), atoms,
+                                          max_temporal=3))
+    elif idx % 2:
+        t = r.choice(fam['CTLS'])
     else:
         t = gen.random_ctls_state(r, r.randint(2, 3), atoms, qdepth=2)
     # long atom names so that string hashing really matters
@@ -219,7 +301,14 @@ def transformations(r, logic, nk, t):
            {'order': order, 'shuffle': True})
     # 4 consistent atom renaming
     atoms = sorted(atoms_of(t) | set(a for l in nk.labels for a in l))
-    ren = {a: 'z%d_%s' % (r.randrange(10 ** 6), a[::-1]) for a in atoms}
+    pad = r.choice(['', '', '_and_a_very_long_suffix_to_make_printed_forms_'
+                    'exceed_any_reasonable_width' * r.randint(1, 2)])
+    ren = {a: 'z%d_%s%s' % (r.randrange(10 ** 6), a[::-1], pad)
+           for a in atoms}
+    if pad:
+        # same long stem for every atom: names differ only at the very end
+        ren = {a: 'atom%s_%d' % (pad, i) for i, a in enumerate(atoms)}
+        LOG.sig['tau:atoms_long'] += 1
     yield ('atoms', NK(nk.states, nk.succ,
                        [frozenset(ren[a] for a in l) for l in nk.labels]),
            rename_atoms(t, ren), {nk.states[i]: i for i in range(n)}, {})
@@ -340,7 +429,7 @@ def bulk_ctl(ctx):
         LOG.sig['bulk:CTL'] += 1
         if isinstance(base, list) and 0 < len(base) < nk.n:
             LOG.mark_nontrivial(('bulk', k))
-        meta(r, 100000 + k, 'CTL', nk, t, base)
+        meta(r, 1000000 + k, 'CTL', nk, t, base)
 
 
 def run(ctx):
@@ -352,7 +441,9 @@ def run(ctx):
     group = ctx.shard // nseeds
     results = {}
     orders = {}
-    for idx in range(ncases):
+    nx = len(x_family()) * len(X_STRUCTS) * 2
+    idxs = list(range(ncases)) + [100000 + k for k in range(nx)]
+    for idx in idxs:
         if idx % ngroups != group:
             continue
         r = gen.rng(ctx.seed, PROP, idx)
@@ -418,7 +509,7 @@ def replay(ctx, rep):
     attach()
     c = rep['case']
     idx = c['case_index']
-    if idx >= 100000:
+    if idx >= 1000000:
         # bulk CTL case: re-run the structure/formula recorded in the case
         from ..mcwork import to_tuple, nk_from_json
         nk = nk_from_json(c['K'], real_names=True)
